@@ -809,7 +809,13 @@ class Not(Logical, Prefix):
     @property
     def factors(self: 'Not') -> 'dsl.Predicate.Factors':
         # the negation of a predicate constrains a table only if the whole predicate involves just that table
-        return Predicate.Factors(self) if len({f.origin for f in Column.dissect(self)}) == 1 else Predicate.Factors()
+        # (and nothing else - in particular no element of a reference)
+        origins = {f.origin for f in Element.dissect(self)}
+        return (
+            Predicate.Factors(self)
+            if len(origins) == 1 and all(isinstance(o, framod.Table) for o in origins)
+            else Predicate.Factors()
+        )
 
 
 class Comparison(Predicate):
